@@ -221,6 +221,15 @@ func runPut(u *universe, g *rng, c *genCase, node int) caseOut {
 	}
 	res := caseOut{Path: "put", Kind: c.kind, Mut: c.mut, Env: absOf(w, u.userTok(u.users[node])), Obj: u.abstract(hdr), Chunks: chunkInts(chunks), Fail: failList(w)}
 	res.HTab = []hpair{hentry(cat(chunks)), hentry(c.stream)}
+	{
+		// "the payload parses as a link" is a fact about the streamed payload, not about the
+		// (payload-less) header: establish it with the SDK on header + what is streamed
+		var t object.Object
+		hdr.CopyTo(&t)
+		t.SetPayload(append(bytes.Clone(hdr.Payload()), cat(chunks)...))
+		var l object.Link
+		res.Obj.LinkParses = t.ReadLink(&l) == nil
+	}
 	out := stream(svc, hdr, 2, chunks)
 	res.Out = &out
 	ds := distinctStored(w)
@@ -373,6 +382,8 @@ var contentMatrix = [][2]string{
 	{"link", "none"}, {"link", "content_split"}, {"link", "link_empty"}, {"link", "link_empty_split"}, {"link", "link_garbage"}, {"link", "link_no_first"}, {"link", "content_tomb"},
 	{"regular", "stream_plus1"}, {"regular", "stream_exact1"}, {"child_last", "stream_plus1"},
 	{"ecpart", "ec_parent_owner"}, {"ecpart", "stream_plus1"},
+	// EC parts are unsigned: the parent header authenticates them. Parent header forged in one field
+	{"ecpart", "none"}, {"ecpart", "parent_id"}, {"ecpart", "parent_sig"}, {"ecpart", "ec_parent_unsigned"}, {"ecpart", "ec_parent_foreign_owner"},
 }
 
 type constsOut struct {
